@@ -156,11 +156,8 @@ func TestVerifC19(t *testing.T) {
 
 	nFwd := 0
 	n := run.N(6000, 120000)
-	run.Cases("keepstore-proxy", n, func(i int, rng *verifkit.Rand) {
-		remote := remotes[rng.Intn(len(remotes))]
-		c := c19KeepCase{Remote: remote, Scheme: rng.PickStr("OAuth2", "Bearer"), Local: rng.Chance(1, 5), Found: rng.Chance(3, 4)}
-		c.Tok = c19kit.GenTok(rng, c19kit.GenOpts{Remote: remote, Others: clusters})
-		// keepstore cannot resolve legacy tokens: every one of them is a local user's
+	keepCase := func(c c19KeepCase, i int, rng *verifkit.Rand) {
+		remote := c.Remote
 		run.Input(c, false)
 		if i < 2 {
 			run.Sample(c)
@@ -229,6 +226,30 @@ func TestVerifC19(t *testing.T) {
 			b, _ := json.Marshal(mc)
 			run.Violation(mf.Sig+suffix, fmt.Sprintf("%s; remote=%q; minimal witness: %s", mf.Detail, remote, b), mc)
 		}
+	}
+	run.Cases("keepstore-proxy", n, func(i int, rng *verifkit.Rand) {
+		remote := remotes[rng.Intn(len(remotes))]
+		c := c19KeepCase{Remote: remote, Scheme: rng.PickStr("OAuth2", "Bearer"), Local: rng.Chance(1, 5), Found: rng.Chance(3, 4)}
+		c.Tok = c19kit.GenTok(rng, c19kit.GenOpts{Remote: remote, Others: clusters})
+		keepCase(c, i, rng)
+	})
+	// exhaustively enumerated sub-space: token kind x auth scheme x X-Keep-Signature x block present
+	var kcombos []c19KeepCase
+	for _, kind := range c19kit.Kinds {
+		for _, scheme := range []string{"OAuth2", "Bearer"} {
+			for _, local := range []bool{false, true} {
+				for _, fnd := range []bool{true, false} {
+					kcombos = append(kcombos, c19KeepCase{Scheme: scheme, Local: local, Found: fnd, Tok: c19kit.Tok{Class: kind}})
+				}
+			}
+		}
+	}
+	run.Cases("keepstore-matrix", len(kcombos), func(i int, rng *verifkit.Rand) {
+		c := kcombos[i]
+		c.Remote = remotes[i%len(remotes)]
+		c.Tok = c19kit.MakeTok(rng, c.Tok.Class, c.Remote, "zzzzz")
+		run.Count("keep_matrix_cases", 1)
+		keepCase(c, i+3, rng)
 	})
 	if !run.Replaying() && nFwd == 0 {
 		run.Inconclusive("C19 keepstore-proxy: the remote Keep service never received a request: nothing observed")
